@@ -691,9 +691,22 @@ pub fn c13(ctx: &mut Ctx) {
             let items = vec![Item::new(1, &[b'x'; 250])];
             big.push(Pkt::Sdes { chunks: vec![Chunk { ssrc: 0x0100_0000, items: (0..(total / 252).min(1000)).map(|_| items[0].clone()).collect() }], pad: 0 });
         }
-        let big: Vec<(Vec<u8>, String, &'static str)> = big.iter().filter(|p| repr::representable(p)).map(|p| (wire::encode(p), p.builder_name(), p.type_name())).collect();
+        let mut big: Vec<(Vec<u8>, String, &'static str)> = big.iter().filter(|p| repr::representable(p)).map(|p| (wire::encode(p), p.builder_name(), p.type_name())).collect();
+        // generic NACKs as raw images (a list of sequence numbers cannot need more than 3856 entries, a packet on
+        // the wire can carry any number of them): 12 + 4n bytes of content around and beyond 65 536 bytes
+        for n in [16_379usize, 16_380, 16_381, 16_382, 16_384, 32_768, 65_000] {
+            let mut img = vec![0x81u8, 205, 0, 0, 0, 0, 0, 1, 0, 0, 0, 2];
+            for i in 0..n {
+                let pid = (i as u32 * 17) as u16;
+                img.extend_from_slice(&[(pid >> 8) as u8, pid as u8, (i % 7) as u8, (i % 5) as u8]);
+            }
+            let words = img.len() / 4 - 1;
+            img[2] = (words >> 8) as u8;
+            img[3] = words as u8;
+            big.push((img, "TransportFeedbackBuilder".to_string(), "TransportFeedback"));
+        }
         let pads: [u8; 4] = [4, 8, 128, 252];
-        ctx.bound("large packets", "APP / unknown / SLI / NACK / SDES packets of about 65280..261888 bytes x paddings {4,8,128,252} (where the padded packet still fits 262144 bytes)");
+        ctx.bound("large packets", "APP / unknown / SLI / NACK / SDES packets of about 65280..261888 bytes and raw generic NACK images of 16379..65000 entries x paddings {4,8,128,252} (where the padded packet still fits 262144 bytes)");
         ctx.run_space("padding-transparency-large", big.len() as u64 * 4, |idx, l| {
             let (img, name, ty) = &big[(idx / 4) as usize];
             let n = pads[(idx % 4) as usize];
